@@ -11,7 +11,8 @@
    a single byte.  The theorem that needs those hypotheses is named ..._partial. *)
 From Coq Require Import List NArith ZArith Bool Arith String.
 From BS Require Import Base.Sexp Base.Types Base.Lit Model.Heap Model.Edit Model.Build Model.Construct
-                       Gen.Tables Gen.T_C06 Proofs.ConstructProofs Proofs.RetryClean Proofs.FullyBuilt.
+                       Model.EditOps Spec.Tree Gen.Tables Gen.T_C06 Proofs.EditRep Proofs.ConstructProofs Proofs.RetryClean
+                       Proofs.FullyBuilt Proofs.ConstructCompose.
 Import ListNotations.
 Open Scope N_scope.
 
@@ -76,6 +77,50 @@ Theorem C06_returned_object_fully_built : forall cfg b0 ss tail s,
   b_stack (so_b s) = [0%nat] /\ b_cur (so_b s) = Some 0%nat /\ b_data (so_b s) = [].
 Proof. exact returned_object_fully_built. Qed.
 Print Assumptions C06_returned_object_fully_built.
+
+(* ------------------------------------------------------------------ "a well-linked tree"
+   [consistent s] is C01's notion (Proofs/EditRep.v): some forest is represented by the heap (rep: all six
+   links of every element are what the ordered trees dictate), its ids are exactly the live ids below the
+   allocation counter [nxt s], none of them is dead, only BeautifulSoup objects stand outside their element chain.
+   Stale cells of rejected attempts sit at or beyond the counter; the statement does not mention them, and that
+   it cannot depend on them is the next theorem. *)
+Theorem C06_consistency_ignores_cells_beyond_counter : forall s1 s2,
+  nxt s1 = nxt s2 -> (forall x, (x < nxt s1)%nat -> hp s1 x = hp s2 x) -> consistent s2 -> consistent s1.
+Proof. exact consistent_below_counter. Qed.
+Print Assumptions C06_consistency_ignores_cells_beyond_counter.
+
+(* whenever the constructor returns an object — any strategies (k rejected attempts after arbitrary event
+   prefixes, then an accepted one), any events, any prior state of the object — that object is a well-linked tree:
+   retry_clean (result = Model.Build.feed below the counter) + parse_consistent (C01/C03) *)
+Theorem C06_returned_tree_well_linked : forall cfg b0 ss tail s,
+  construct cfg b0 ss tail = CSoup s -> consistent (b_st (so_b s)).
+Proof. exact returned_tree_well_linked. Qed.
+Print Assumptions C06_returned_tree_well_linked.
+
+(* the same in the shape of the property's retry clause, together with what retry_clean gives *)
+Theorem C06_retry_returns_well_linked : forall cfg b0 rejected acc evs rest tail,
+  forallb is_reject rejected = true -> st_out acc = Accept evs ->
+  exists s, construct cfg b0 (rejected ++ acc :: rest) tail = CSoup s /\
+            same_object (so_b s) (feed cfg evs) /\ consistent (b_st (so_b s)).
+Proof. exact retry_returns_well_linked. Qed.
+Print Assumptions C06_retry_returns_well_linked.
+
+(* ... and it stays one under any finite history of editing calls (Model.EditOps.run_history: inadmissible
+   calls are refused as the code refuses them), run on the returned state itself, stale cells included.
+   "Can be rendered, searched and copied" then rests on C05 / C10 / C12, whose premises are rep1 / consistent. *)
+Theorem C06_returned_tree_editable : forall cfg b0 ss tail s ops,
+  construct cfg b0 ss tail = CSoup s -> consistent (run_history (b_st (so_b s)) ops).
+Proof. exact returned_tree_editable. Qed.
+Print Assumptions C06_returned_tree_editable.
+
+(* every live element of the result (after any such history) lies in a represented tree: the premise of all the
+   navigation-view theorems of C01 *)
+Theorem C06_returned_tree_views_premise : forall cfg b0 ss tail s ops x,
+  construct cfg b0 ss tail = CSoup s -> live (run_history (b_st (so_b s)) ops) x ->
+  exists F T b, cons_with F (run_history (b_st (so_b s)) ops) /\ In (T, b) F /\ In x (pre T) /\
+                rep1 (hp (run_history (b_st (so_b s)) ops)) T b.
+Proof. exact returned_tree_views_premise. Qed.
+Print Assumptions C06_returned_tree_views_premise.
 
 (* ================================================================== the html.parser path *)
 
